@@ -70,7 +70,8 @@ Definition ref_ok (c : comp) (before : list (string * sup)) (x : ref) : Prop :=
 Record sup_ok (c : comp) (before : list (string * sup)) (s : sup) : Prop := {
   so_refs : forall x, In x (s_seqs s) -> ref_ok c before x;
   so_base : s_base s = flat_map (ref_base c) (s_seqs s);
-  so_len : s_len s = List.length (flatB c (s_base s)) }.
+  so_len : s_len s = List.length (flatB c (s_base s));
+  so_bdef : forall x, In x (s_base s) -> ahas (c_bases c) (fst x) = true }.
 
 Record WF (c : comp) : Prop := {
   wf_nodup : NoDup (map fst (c_bases c) ++ map fst (c_sups c));
